@@ -801,8 +801,7 @@ func (e *Engine) Run() {
 				// the descheduled goroutine stays descheduled while the emulator's own timers may fire, for at most
 				// the hold cap of fake time (SleepUntil releases it then)
 				v := e.worldVersion()
-				r.SleepUntil(r.MaxHoldTime, func() bool { return e.worldVersion() != v || !r.HeldNow() })
-				if r.HeldNow() {
+				if !r.SleepUntil(r.MaxHoldTime, func() bool { return e.worldVersion() != v || !r.HeldNow() }) && r.HeldNow() {
 					r.ReleaseHolds()
 					r.Settle()
 				}
